@@ -1,4 +1,5 @@
 """shared driver of the checks C01-C04 (Expecter): Coq proofs + correspondence expect-hist + direct oracles"""
+import codecs
 import json
 import os
 import re
@@ -575,11 +576,18 @@ def real_outcomes_oracle(ctx, n):
         ending = rng.choice(['eof', 'eof', 'timeout'])
         listed = rng.random() < 0.5
         marker = pexpect.EOF if ending == 'eof' else pexpect.TIMEOUT
-        pats = [b'zz'] + ([marker] if listed else [])
+        # text mode (strict decoding, the default) on the descriptor transports: the stream may stop in the MIDDLE of a character -
+        # the outcome is still EOF / TIMEOUT, before is the text of the complete characters
+        uni = transport != 'pty' and rng.random() < 0.4
+        if uni:
+            data = ''.join(rng.choice(['a', 'b', 'é', '☃']) for _ in range(rng.randint(0, 6))).encode('utf-8') + rng.choice([b'', b'', b'\xc3', b'\xe2\x98'])
+        ekw = {'encoding': 'utf-8'} if uni else {}
+        Z = 'zz' if uni else b'zz'
+        pats = [Z] + ([marker] if listed else [])
         closers = []
         if transport == 'pipe':
             r, w = os.pipe()
-            c = fdpexpect.fdspawn(r, timeout=5, use_poll=up)
+            c = fdpexpect.fdspawn(r, timeout=5, use_poll=up, **ekw)
             os.write(w, data) if data else None
             if ending == 'eof':
                 os.close(w)
@@ -593,7 +601,7 @@ def real_outcomes_oracle(ctx, n):
             closers.append(lambda: c.close(force=True))
         else:
             a, b = socket.socketpair()
-            c = socket_pexpect.SocketSpawn(a, timeout=5, use_poll=up) if transport == 'socket' else fdpexpect.fdspawn(a.fileno(), timeout=5, use_poll=up)
+            c = socket_pexpect.SocketSpawn(a, timeout=5, use_poll=up, **ekw) if transport == 'socket' else fdpexpect.fdspawn(a.fileno(), timeout=5, use_poll=up, **ekw)
             b.sendall(data) if data else None
             if ending == 'eof':
                 b.close()
@@ -614,10 +622,10 @@ def real_outcomes_oracle(ctx, n):
             again = None
             if ending == 'eof':
                 try:
-                    c.expect_exact([b'zz'], timeout=1)
+                    c.expect_exact([Z], timeout=1)
                     again = 'matched'
                 except pexpect.EOF:
-                    again = 'EOF' if c.before == b'' else 'EOF with before=%r' % c.before
+                    again = 'EOF' if c.before in (b'', '') else 'EOF with before=%r' % c.before
                 except Exception as e:
                     again = type(e).__name__
         finally:
@@ -635,13 +643,13 @@ def real_outcomes_oracle(ctx, n):
             bad = 'expected the %s exception, got %r' % (name, out)
         elif after is not marker:
             bad = 'after is %r, expected the %s class' % (after, name)
-        elif before != data:
+        elif before != (codecs.getincrementaldecoder('utf-8')('strict').decode(data, False) if uni else data):
             bad = 'before is %r, but the pending text was %r' % (before, data)
         elif ending == 'eof' and again != 'EOF':
             bad = 'a further call after EOF gave %r' % (again,)
         if bad:
             ctx.hit('C04/real-outcome', 'expect_exact(%r) on a %s (use_poll=%s) whose stream %s after %r: %s'
-                    % ([p if isinstance(p, bytes) else p.__name__ for p in pats], transport, up, 'ended' if ending == 'eof' else 'went silent', data, bad),
+                    % ([p if isinstance(p, (bytes, str)) else p.__name__ for p in pats], transport, up, 'ended' if ending == 'eof' else 'went silent', data, bad),
                     {'transport': transport, 'data': list(data), 'ending': ending, 'listed': listed, 'use_poll': up})
             return
     ctx.oracle_stats['real_outcomes'] = tried
